@@ -270,7 +270,7 @@ def solve_one(job):
     if final == "unknown":
         # race pure MBQI (z3, e-matching off: decides the set/relation queries on which e-matching loops) against cvc5
         # (decides most string queries); the first definite answer wins
-        rr, detail = _race(smt2, 25, 10 if not thorough else CVC5_TIMEOUT_S)
+        rr, detail = _race(smt2, 60, 20 if not thorough else CVC5_TIMEOUT_S)
         for k, v in detail.items():
             res["backends"][k] = v
         final = rr
